@@ -242,6 +242,9 @@ def run(ch: Choices, opts: Dict[str, Any]) -> Dict[str, Any]:
     def host_task():
         conn = SimConnection("app", node, max_qubits=budget)
         drv = SdkDriver(conn)
+        if not calm:
+            # the stub controller finishes every subroutine before the host goes on either way; what differs is the SDK path
+            drv.flush_block = lambda: not ch.flag(1, 4, "flush-nonblocking")
         for i, s in enumerate(prog):
             try:
                 drv.exec(s)
